@@ -266,8 +266,18 @@ def cs_of(angle):
 
 class Check(PropertyCheck):
     id = 'C20'
-    lean_targets = ['RegionsVerif.Props.C20']
-    namespaces = ['RegionsVerif.Props.C20']
+    lean_targets = ['RegionsVerif.Props.C20', 'RegionsVerif.Bridge.FormulasC20']
+    namespaces = ['RegionsVerif.Props.C20', 'RegionsVerif.Bridge.C20']
+
+    def translate(self):
+        # tie T: regenerate Gen/FormulasC20.lean (PixCoord.__add__/__sub__/separation/rotate) from the current source
+        import importlib.util, os
+        from .common import VERIF
+        spec = importlib.util.spec_from_file_location('py2lean', os.path.join(VERIF, 'tools', 'py2lean.py'))
+        mod = importlib.util.module_from_spec(spec)
+        spec.loader.exec_module(mod)
+        problems, _ = mod.main(['C20'])
+        return problems
     parallel = True
     rule = ('x/y shape pairs over dims {0,1,2,3} up to rank 3 (scalars as Python numbers / numpy scalars / 0-d arrays, '
             '0-length, 1-D, N-D, mixed ranks; broadcastable and not) x int/float dtypes with dyadic values; '
